@@ -110,6 +110,7 @@ type Interp struct {
 	mons         [2]*monitor
 	vfs          map[string]Slice
 	vfsOrder     []string
+	hostVars     map[string]Value // values handed to the template engine (jet.VarMap.Set), by name
 	globalCells  map[any]bool
 	NoModel   map[string]bool // external models switched off (validation harnesses)
 }
